@@ -7,7 +7,8 @@ set -e
 export CARGO_NET_OFFLINE=true
 T=$(dirname "$(rustup which --toolchain nightly rustc)")/../lib/rustlib/x86_64-unknown-linux-gnu/bin
 cd /verif/harness
-RUSTFLAGS="-C instrument-coverage" cargo +nightly build --offline --target-dir /verif/build/cargo-cov 2>&1 | tail -1
+LLVM_PROFILE_FILE=/verif/build/cov/build-%p.profraw RUSTFLAGS="-C instrument-coverage" cargo +nightly build --offline --target-dir /verif/build/cargo-cov 2>&1 | tail -1
+rm -f /repo/default_*.profraw   # build scripts run instrumented with the package directory as cwd
 mkdir -p /verif/build/cov && cd /verif/build/cov && rm -f *.profraw
 for p in C01 C02 C03 C04 C05 C06 C07 C08 C09 C10 C11 C12 C13 C14 C15 C16 C17 C18 C19; do
   LLVM_PROFILE_FILE="/verif/build/cov/$p-%p.profraw" KVH_SHARDS=1 /verif/build/cargo-cov/debug/kvh gen $p quick 1 /verif/build/cov/g_$p >/dev/null 2>&1 || true
